@@ -293,3 +293,123 @@ Fixpoint seq_sched (i : nat) (ks : list nat) : list nat :=
   | [] => []
   | k :: r => repeat i (S k) ++ seq_sched (S i) r
   end.
+
+(* ------------------------------------------------------------------ inbound transfer phases *)
+
+(* The receive goroutine of handleOffer with the order of its steps made explicit.  An inbound transfer is IN PROGRESS
+   from the moment its slot is taken until the read of its stream has ended (ReadToEOF + Close returned) or the goroutine
+   gave up (shutdown / nobody connected).  PRelease is one CALL of releasePermit.Release(). *)
+Inductive phase : Type :=
+| PAcquire        (* GetInboundPermit succeeded (handleOffer, before the goroutine is started) *)
+| PConnected      (* AcceptWithCid returned a stream *)
+| PReadDone       (* ReadToEOF and conn.Close() have returned *)
+| PGaveUp         (* case <-bctx.Done() / AcceptWithCid error: the goroutine returns without a (further) stream *)
+| PRelease.       (* a call of releasePermit.Release() *)
+
+(* early = false: the code as it is ("release permit fast" stands AFTER ReadToEOF/Close);
+   early = true : the ordering in which that call stands right after AcceptWithCid (used only to show that the
+                  in-progress theorem does distinguish the two).
+   loops = false: the repaired code (fixes/C16-receive-goroutine-returns-after-success.diff): the goroutine returns after a
+                  successfully handled stream;
+   loops = true : the code as found: it goes round the loop and accepts again on the same connection id. *)
+Fixpoint recv_phases_loop (early loops : bool) (its : list recv_iter) : list phase * bool :=
+  match its with
+  | [] => ([], false)
+  | RShutdown :: _ => ([PGaveUp], true)
+  | RAcceptFail :: _ => ([PGaveUp], true)
+  | RRead h :: rest =>
+      let one := if early then [PConnected; PRelease; PReadDone] else [PConnected; PReadDone; PRelease] in
+      if handled_err h || negb loops then (one, true)
+      else let (e, f) := recv_phases_loop early loops rest in (one ++ e, f)
+  end.
+Definition recv_phases (early loops : bool) (its : list recv_iter) : list phase * bool :=
+  let (e, f) := recv_phases_loop early loops its in
+  (PAcquire :: (if f then e ++ [PRelease] else e), f).        (* the deferred Release when the goroutine returns *)
+
+(* forgetting the phases gives back the slot events of in_events *)
+Definition phase_ev (p : phase) : list ev :=
+  match p with PAcquire => [Acquire] | PRelease => [Release] | _ => [] end.
+Definition erase_phases (ps : list phase) : list ev := flat_map phase_ev ps.
+
+(* "the slot is held whenever the transfer is in progress", checked along a phase list from a state (held, inprog) *)
+Fixpoint slot_covers (held inprog : bool) (ps : list phase) : bool :=
+  (implb inprog held) &&
+  match ps with
+  | [] => true
+  | PAcquire :: r => negb held && slot_covers true true r      (* a slot is asked for once, before anything else *)
+  | PConnected :: r => slot_covers held true r      (* a (further) stream on the same connection id: a transfer is in progress *)
+  | PReadDone :: r => slot_covers held false r
+  | PGaveUp :: r => slot_covers held false r
+  | PRelease :: r => slot_covers false inprog r
+  end.
+
+(* several inbound offers, each with its phase list, interleaved by a scheduler on the real semaphore *)
+Record itransfer : Type := { it_held : bool; it_inprog : bool; it_rest : list phase }.
+
+Definition it_step (limit sem : N) (t : itransfer) : res (N * itransfer) :=
+  match it_rest t with
+  | [] => Ok (sem, t)
+  | PAcquire :: r =>
+      match try_acquire limit sem with
+      | Some c => Ok (c, {| it_held := true; it_inprog := true; it_rest := r |})
+      | None => Ok (sem, {| it_held := false; it_inprog := false; it_rest := [] |})   (* rate limited: no goroutine *)
+      end
+  | PConnected :: r => Ok (sem, {| it_held := it_held t; it_inprog := true; it_rest := r |})
+  | PReadDone :: r => Ok (sem, {| it_held := it_held t; it_inprog := false; it_rest := r |})
+  | PGaveUp :: r => Ok (sem, {| it_held := it_held t; it_inprog := false; it_rest := r |})
+  | PRelease :: r =>
+      if it_held t then
+        match sem_release sem with
+        | Ok c => Ok (c, {| it_held := false; it_inprog := it_inprog t; it_rest := r |})
+        | Err e => Err e
+        | Panic => Panic
+        end
+      else Ok (sem, {| it_held := false; it_inprog := it_inprog t; it_rest := r |})
+  end.
+
+Definition isched_step (limit : N) (g : N * list itransfer) (i : nat) : res (N * list itransfer) :=
+  match nth_error (snd g) i with
+  | None => Ok g
+  | Some t =>
+      match it_step limit (fst g) t with
+      | Ok (c, t') => Ok (c, upd (snd g) i t')
+      | Err e => Err e
+      | Panic => Panic
+      end
+  end.
+Fixpoint isched_run (limit : N) (sched : list nat) (g : N * list itransfer) : res (N * list itransfer) :=
+  match sched with
+  | [] => Ok g
+  | i :: r => match isched_step limit g i with Ok g' => isched_run limit r g' | Err e => Err e | Panic => Panic end
+  end.
+
+Definition it_start (ps : list phase) : itransfer := {| it_held := false; it_inprog := false; it_rest := ps |}.
+Definition n_inprog (ts : list itransfer) : nat := length (filter it_inprog ts).
+Definition n_held (ts : list itransfer) : nat := length (filter it_held ts).
+
+(* The scenario the harness plays on a receiver with `limit` slots of which `held0` are taken by the harness:
+   offer 1 is accepted and its sender connects and stalls; then the free slots are counted and a second offer arrives;
+   then the first sender completes.  Result: (free slots during the stall, second offer got a slot, free slots at the end). *)
+Definition stall_scenario (early loops : bool) (limit held0 : N) : res (N * bool * N) :=
+  let t1 := it_start (fst (recv_phases early loops [RRead HEnqueued; RAcceptFail])) in
+  let t2 := it_start (fst (recv_phases early loops [RAcceptFail])) in
+  (* offer 1: acquire, connected (and, in the early ordering, the release that directly follows) *)
+  let pre := if early then [0; 0; 0]%nat else [0; 0]%nat in
+  match isched_run limit pre (held0, [t1; t2]) with
+  | Ok (sem1, ts1) =>
+      let free_during := limit - sem1 in
+      match isched_run limit [1%nat] (sem1, ts1) with
+      | Ok (sem2, ts2) =>
+          let second := match nth_error ts2 1 with Some t => it_held t | None => false end in
+          (* everything runs to its end *)
+          match isched_run limit (repeat 0%nat 8 ++ repeat 1%nat 8) (sem2, ts2) with
+          | Ok (sem3, _) => Ok (free_during, second, limit - sem3)
+          | Err e => Err e
+          | Panic => Panic
+          end
+      | Err e => Err e
+      | Panic => Panic
+      end
+  | Err e => Err e
+  | Panic => Panic
+  end.
